@@ -76,6 +76,9 @@ func schedule(r *rig.Rng, total int64, quietCh, quietSide int) []op {
 			add(0xff25, r.U8()&mask51)
 		case 2:
 			add(0xff24, r.U8())
+			if r.Chance(1, 2) {
+				add(0xff04, r.U8()) // the guest resets DIV (no business of the sampler's)
+			}
 		case 3, 4, 5: // make a channel audible: DAC on, trigger
 			ch := r.Intn(4)
 			regs := chanRegs(ch)
